@@ -157,7 +157,7 @@ pub fn run(thorough: bool) {
         probes: vec![Arc::new(StageProbe)],
         pools: vec![1],
         time_budget_s: if thorough { 2400 } else { 40 },
-        max_states: if thorough { 200_000 } else { 5_000 },
+        max_states: if thorough { 200_000 } else { 12_000 },
         stop_on_violation: true,
     });
     rep.set("rule", json!("in EVERY state in which a replica has staged changes (creations, updates, deletions, chains of several revisions on one object, array patches, resolutions, snapshots): (a) unstage -> view and full revision-tree dumps equal those recorded at the replica's last moment without staging, nothing staged; (b) stage(); unstage(); replay_stage() -> view, tree dumps (with staged flags) and stage export equal before; (c) commit after that round trip reopens to the same view as a direct commit; (d) reload, refresh and reload_until(each recorded head set) return an error and leave view and stage export unchanged; (e) after every successful commit transition nothing is staged (has_staging, stage(), per-revision flags, staged objects). distinct_nontrivial = distinct stage exports"));
